@@ -551,10 +551,17 @@ func (w *World) Commit(relaxed bool, workers int) error {
 	return nil
 }
 
+// DropCache evicts the read cache. Handles of NESTED containers are dropped with it (and re-acquired through their
+// parents on demand): a handle of an inlined child points into the slab object graph of its parent, which is rebuilt by
+// decoding after an eviction, so - exactly as after a reopen - such a handle no longer denotes the object the storage
+// holds. Handles of roots and of detached containers (standalone slabs, reachable by id) are kept.
 func (w *World) DropCache() {
 	w.logOp("dropcache")
 	w.stats.Ops["dropcache"]++
 	w.ps.DropCache()
+	for _, n := range w.allLive() {
+		dropHandles(n, false)
+	}
 }
 
 // Reopen replaces the storage by a brand-new one over the same ledger and re-opens every root by id.
